@@ -201,7 +201,7 @@ func Run(c *fw.Ctx) {
 		b, _ := json.Marshal(genCase(r, i, rounds))
 		cases = append(cases, b)
 	}
-	c.RunIsolated("c06-case", cases, fw.CasesOpts{Workers: 10, CaseTimout: 15 * time.Minute})
+	c.RunIsolated("c06-case", cases, fw.CasesOpts{Workers: c.N(10, 14), CaseTimout: 15 * time.Minute})
 	if envInt("VERIF_C06_DEBUG", 0) == 1 {
 		for _, k := range []string{"rounds", "rounds_judged", "operations", "ms_running", "ms_commit_order_checker", "ms_porcupine", "porcupine_partitions", "porcupine_operations", "compactions", "flushes", "maintenance_errors", "concurrent_pairs_on_a_key", "read_conflicts", "open_writes_resolved", "undocumented_errors", "unexpected_refusals"} {
 			fmt.Fprintf(os.Stderr, "  %s=%d\n", k, c.Counter(k))
